@@ -9,7 +9,7 @@ import (
 	"fmt"
 	"io"
 	"runtime/trace"
-	"sync"
+	"sync/atomic"
 
 	"github.com/zeebo/errs"
 
@@ -51,7 +51,7 @@ type Stream struct {
 
 	write inspectMutex
 	read  inspectMutex
-	flush sync.Once
+	flush uint32 // set once the first receive need not flush (anymore)
 
 	id   drpcwire.ID
 	wr   *drpcwire.Writer
@@ -466,7 +466,9 @@ func (s *Stream) checkRecvFlush() (err error) {
 	// ended (remote error or cancel, local cancel). the stream is terminated
 	// in that state and the receive reports the actual reason, so it must not
 	// be replaced by the io.EOF of a flush that can no longer happen.
-	s.flush.Do(func() { err = s.RawFlush() })
+	if atomic.CompareAndSwapUint32(&s.flush, 0, 1) {
+		err = s.RawFlush()
+	}
 	if err != nil && !errors.Is(err, io.EOF) {
 		return err
 	}
@@ -510,7 +512,6 @@ func (s *Stream) MsgSend(msg drpc.Message, enc drpc.Encoding) (err error) {
 	// this has to be looked at before anything that can block: the send may
 	// have to wait for the first receive, which flushes under the write lock.
 	started := !s.sigs.send.IsSet()
-	s.flush.Do(func() {})
 
 	defer s.checkFinished()
 	s.write.Lock()
@@ -524,6 +525,13 @@ func (s *Stream) MsgSend(msg drpc.Message, enc drpc.Encoding) (err error) {
 	if err != nil {
 		return errs.Wrap(err)
 	}
+
+	// from here on this send writes and flushes (or leaves flushing to the
+	// application), so the first receive does not have to flush what was
+	// buffered when the stream was made. a send that failed to marshal has
+	// written nothing and must leave that flush to the receive.
+	atomic.StoreUint32(&s.flush, 1)
+
 	if s.opts.MaximumBufferSize == 0 || len(wbuf) < s.opts.MaximumBufferSize {
 		s.wbuf = wbuf
 	}
